@@ -428,5 +428,46 @@ func TestVerifC04(t *testing.T) {
 			}
 			run.Count("subnet_iterations_checked", 1)
 		}
+		// the widest subnets cannot be walked to the end here: the first 20000 addresses must come without an
+		// error, inside the subnet and without repetition (0.0.0.0/0 is the one range of size 2^32)
+		for _, sn := range []string{"0.0.0.0/0", "0.0.0.0/1", "128.0.0.0/1", "64.0.0.0/2", "10.0.0.0/8"} {
+			_, ipnet, _ := net.ParseCIDR(sn)
+			seen := map[uint32]bool{}
+			ctx, cancel := context.WithCancel(context.Background())
+			ch, err := NewIPGenerator().IPs(ctx, &Range{DstSubnet: ipnet})
+			bad := ""
+			if err != nil {
+				bad = "generator refused the subnet: " + err.Error()
+			} else {
+				for ig := range ch {
+					a, err := ig.GetIP()
+					if err != nil {
+						bad = "error instead of an address: " + err.Error()
+						break
+					}
+					a4 := a.To4()
+					v := uint32(a4[0])<<24 | uint32(a4[1])<<16 | uint32(a4[2])<<8 | uint32(a4[3])
+					if !ipnet.Contains(a) {
+						bad = fmt.Sprintf("address %v outside %s", a, sn)
+					}
+					if seen[v] {
+						bad = fmt.Sprintf("address %v produced twice among the first %d", a, len(seen))
+					}
+					seen[v] = true
+					if len(seen) >= 20000 || bad != "" {
+						break
+					}
+				}
+			}
+			cancel()
+			if bad == "" && len(seen) < 20000 {
+				bad = fmt.Sprintf("the iteration stopped after %d addresses", len(seen))
+			}
+			run.Eval(1)
+			if bad != "" {
+				run.Violation("subnet-iteration", fmt.Sprintf("subnet %s: %s", sn, bad), sn)
+			}
+			run.Count("wide_subnet_prefixes_checked", 1)
+		}
 	}
 }
